@@ -1,5 +1,6 @@
 import CgtModel.Dsl
 import CgtModel.Lemmas.DslLayout
+import CgtModel.Lemmas.DslFile
 /-! # C13 — layout, comments, keyword case and line endings never change what is parsed
 
 The executable model `Dsl.parse` is a scannerless PEG reading of parser.pest + parser.rs; the check
@@ -21,9 +22,12 @@ transaction list, error line). Proved here are the layout lemmas the property na
   blanks, any non-empty run of blanks/tabs in every gap, each keyword in any mixture of case, trailing
   blanks and an optional `#` comment) is read as exactly that transaction, for all seven commands;
   `C13_layouts_agree` — two layouts of the same transaction parse alike.
+* `C13_any_file_layout` — **the whole file**: transaction lines each in its own layout, blank and comment
+  lines anywhere, every line ended by LF, CRLF or a bare CR, the last line with or without a terminator:
+  the file parses to exactly the transactions of its transaction lines, in order (`okList_file` is the
+  same as an equivalence with the semantic checks; `line_then` is the step: line, terminator, rest).
 Not proved as one theorem: layouts that drop an optional element the reader defaults (omitted `GBP`,
-omitted zero clause) are covered by the two lemmas above them; whole files in mixed line endings by the
-splitting lemmas.
+omitted zero clause) are covered by the two lemmas above them.
 -/
 namespace Cgt.C13
 open Cgt.Dsl
@@ -470,5 +474,241 @@ theorem parse_joined_files (valid : List String) (a b : List Char) :
 /-- the separator `cgt-tool` puts between input files, as the translator reads it from main.rs on every run
     (group `cli_join`) -/
 theorem C13_files_joined_by_line_feed : Cgt.cliFileJoin = "\n" := by decide
+
+/-! ### a whole file in an arbitrary layout -/
+
+/-- both parts parse: the two lists one after the other; otherwise nothing -/
+def comb : Option (List DTx) → Option (List DTx) → Option (List DTx)
+  | some x, some y => some (x ++ y)
+  | _, _ => none
+
+theorem joined_comb (valid : List String) (a b : List Char) :
+    okList valid (a ++ '\n' :: b) = comb (okList valid a) (okList valid b) := by
+  rw [parse_joined_files]
+  cases okList valid a <;> cases okList valid b <;> rfl
+
+theorem verdict_blank (valid : List String) : verdict valid [.blank] = some [] := by
+  simp [verdict, hasSyntaxError, txsOf]
+
+theorem verdict_comb (valid : List String) (x y : List LineResult) :
+    verdict valid (x ++ y) = comb (verdict valid x) (verdict valid y) := by
+  rw [verdict_append]
+  cases verdict valid x <;> cases verdict valid y <;> rfl
+
+theorem comb_nil_right (o : Option (List DTx)) : comb o (some []) = o := by
+  cases o <;> simp [comb]
+
+theorem comb_nil_left (o : Option (List DTx)) : comb (some []) o = o := by
+  cases o <;> simp [comb]
+
+theorem okList_nil (valid : List String) : okList valid [] = some [] := by
+  rw [okList_verdict]
+  simp only [splitLines, List.map_cons, List.map_nil, parseLine_nil]
+  exact verdict_blank valid
+
+/-- a text without line breaks is one line -/
+theorem okList_line (valid : List String) (a : List Char) (h : noNl a) :
+    okList valid a = verdict valid [parseLine a] := by
+  rw [okList_verdict, (C13_missing_final_newline a h).2]
+  rfl
+
+theorem okList_cr_end (valid : List String) (a : List Char) (h : noNl a) :
+    okList valid (a ++ ['\r']) = okList valid a := by
+  rw [okList_verdict, okList_line valid a h]
+  have := (C13_lf_crlf_cr_equivalent a [] h (by intro r hr; cases hr)).2.2
+  rw [this]
+  simp only [splitLines, List.map_cons, List.map_nil, parseLine_nil]
+  have : [parseLine a, LineResult.blank] = [parseLine a] ++ [LineResult.blank] := rfl
+  rw [this, verdict_comb, verdict_blank, comb_nil_right]
+
+/-- the three line terminators of the grammar -/
+inductive Eol
+  | lf | crlf | cr
+deriving DecidableEq, Repr
+
+def Eol.chars : Eol → List Char
+  | .lf => ['\n']
+  | .crlf => ['\r', '\n']
+  | .cr => ['\r']
+
+/-- **a line, its terminator, the rest**: whatever terminator ends a line without line breaks, the text
+    parses exactly when the line and the rest both do, to the line's list followed by the rest's -/
+theorem line_then (valid : List String) (a : List Char) (h : noNl a) (e : Eol) (b : List Char) :
+    okList valid (a ++ e.chars ++ b) = comb (okList valid a) (okList valid b) := by
+  cases e with
+  | lf =>
+    have : a ++ Eol.lf.chars ++ b = a ++ '\n' :: b := by simp [Eol.chars]
+    rw [this, joined_comb]
+  | crlf =>
+    have : a ++ Eol.crlf.chars ++ b = (a ++ ['\r']) ++ '\n' :: b := by simp [Eol.chars]
+    rw [this, joined_comb, okList_cr_end valid a h]
+  | cr =>
+    cases b with
+    | nil =>
+      have : a ++ Eol.cr.chars ++ [] = a ++ ['\r'] := by simp [Eol.chars]
+      rw [this, okList_cr_end valid a h, okList_nil, comb_nil_right]
+    | cons c cs =>
+      by_cases hc : c = '\n'
+      · subst hc
+        have e1 : a ++ Eol.cr.chars ++ '\n' :: cs = (a ++ ['\r']) ++ '\n' :: cs := by simp [Eol.chars]
+        have e2 : okList valid ('\n' :: cs) = okList valid cs := by
+          have := joined_comb valid [] cs
+          rw [okList_nil, comb_nil_left] at this
+          simpa using this
+        rw [e1, joined_comb, okList_cr_end valid a h, e2]
+      · have e1 : a ++ Eol.cr.chars ++ c :: cs = a ++ '\r' :: (c :: cs) := by simp [Eol.chars]
+        have := (C13_lf_crlf_cr_equivalent a (c :: cs) h (by intro r hr; injection hr with h1 _; exact hc h1)).2.2
+        rw [e1, okList_verdict, this, okList_line valid a h, okList_verdict]
+        have : List.map parseLine (a :: splitLines (c :: cs)) = [parseLine a] ++ List.map parseLine (splitLines (c :: cs)) := rfl
+        rw [this, verdict_comb]
+
+/-- a source line: a transaction in some layout, a blank line, or a comment line -/
+inductive SrcLine
+  | tx (L : Layout) (t : DTx)
+  | blank (ws : List Char)
+  | comment (ws body : List Char)
+
+def SrcLine.chars : SrcLine → List Char
+  | .tx L t => render L t
+  | .blank ws => ws
+  | .comment ws body => ws ++ '#' :: body
+
+/-- the line is a legal layout and holds no line break -/
+def SrcLine.ok : SrcLine → Prop
+  | .tx L t => L.ok ∧ lineChars L.post ∧ txOk t
+  | .blank ws => wsRun0 ws
+  | .comment ws body => wsRun0 ws ∧ lineChars body
+
+/-- what the line stands for -/
+def SrcLine.txs : SrcLine → List DTx
+  | .tx _ t => [normTx t]
+  | _ => []
+
+/-- the text of a file: lines with their terminators, then a last line without one (`.blank []` when
+    the file ends in a terminator) -/
+def fileText : List (SrcLine × Eol) → SrcLine → List Char
+  | [], last => last.chars
+  | (l, e) :: rest, last => l.chars ++ e.chars ++ fileText rest last
+
+def fileTxs (ls : List (SrcLine × Eol)) (last : SrcLine) : List DTx :=
+  (ls.map (·.1) ++ [last]).flatMap SrcLine.txs
+
+/-- all of the list pass the semantic checks, or nothing -/
+def allOk (valid : List String) (ts : List DTx) : Option (List DTx) :=
+  if ts.all (semOk valid) then some ts else none
+
+theorem allOk_comb (valid : List String) (x y : List DTx) : comb (allOk valid x) (allOk valid y) = allOk valid (x ++ y) := by
+  unfold allOk
+  rw [List.all_append]
+  cases x.all (semOk valid) <;> cases y.all (semOk valid) <;> simp [comb]
+
+theorem srcLine_noNl (l : SrcLine) (h : l.ok) : noNl l.chars := by
+  cases l with
+  | tx L t => exact lineChars_render L h.1 h.2.1 t h.2.2
+  | blank ws => exact lineChars_ws ws h
+  | comment ws body =>
+    have : lineChars (ws ++ '#' :: body) := by
+      rw [lineChars_append, lineChars_cons]
+      exact ⟨lineChars_ws ws h.1, ⟨by decide, by decide⟩, h.2⟩
+    exact this
+
+theorem srcLine_okList (valid : List String) (l : SrcLine) (h : l.ok) : okList valid l.chars = allOk valid l.txs := by
+  rw [okList_line valid _ (srcLine_noNl l h)]
+  cases l with
+  | tx L t =>
+    simp only [SrcLine.chars, SrcLine.txs]
+    rw [C13_any_layout L h.1 t h.2.2]
+    simp [verdict, hasSyntaxError, txsOf, allOk]
+  | blank ws =>
+    simp only [SrcLine.chars, SrcLine.txs]
+    rw [C13_blank_line_is_blank ws h]
+    simp [verdict, hasSyntaxError, txsOf, allOk]
+  | comment ws body =>
+    simp only [SrcLine.chars, SrcLine.txs]
+    rw [C13_comment_line_is_blank ws body h.1]
+    simp [verdict, hasSyntaxError, txsOf, allOk]
+
+/-- **C13 for a whole file**: transaction lines in any layouts (leading blanks, any runs of blanks and
+    tabs in the gaps, keywords in any case, trailing blanks and comment), blank lines and comment lines
+    in any number anywhere, every line ended by LF, CRLF or CR as one pleases, a last line with or
+    without a terminator: the file parses exactly when its transactions pass the semantic checks, and then
+    to exactly the transactions of its transaction lines, in order. -/
+theorem okList_file (valid : List String) (ls : List (SrcLine × Eol)) (last : SrcLine)
+    (hls : ∀ x ∈ ls, x.1.ok) (hlast : last.ok) :
+    okList valid (fileText ls last) = allOk valid (fileTxs ls last) := by
+  induction ls with
+  | nil =>
+    simp only [fileText, fileTxs, List.map_nil, List.nil_append, List.flatMap_cons, List.flatMap_nil, List.append_nil]
+    exact srcLine_okList valid last hlast
+  | cons x rest ih =>
+    obtain ⟨l, e⟩ := x
+    have hl : l.ok := hls (l, e) (by simp)
+    have ih' := ih (fun y hy => hls y (by simp [hy]))
+    simp only [fileText]
+    rw [line_then valid _ (srcLine_noNl l hl), srcLine_okList valid l hl, ih', allOk_comb]
+    simp [fileTxs]
+
+theorem C13_any_file_layout (valid : List String) (ls : List (SrcLine × Eol)) (last : SrcLine)
+    (hls : ∀ x ∈ ls, x.1.ok) (hlast : last.ok) (hsem : ∀ t ∈ fileTxs ls last, semOk valid t = true) :
+    parse valid (fileText ls last) = .ok (fileTxs ls last) := by
+  have h := okList_file valid ls last hls hlast
+  have hall : (fileTxs ls last).all (semOk valid) = true := List.all_eq_true.mpr hsem
+  unfold allOk at h
+  rw [if_pos hall] at h
+  unfold okList at h
+  split at h
+  · rename_i ts hp; injection h with h; rw [hp, h]
+  · cases h
+
+/-- and a file one of whose transactions fails a semantic check is rejected, whatever its layout -/
+theorem C13_any_file_layout_rejects (valid : List String) (ls : List (SrcLine × Eol)) (last : SrcLine)
+    (hls : ∀ x ∈ ls, x.1.ok) (hlast : last.ok) (t : DTx) (ht : t ∈ fileTxs ls last) (hsem : semOk valid t = false) :
+    ∃ e, parse valid (fileText ls last) = .error e := by
+  have h := okList_file valid ls last hls hlast
+  have hall : ¬ (fileTxs ls last).all (semOk valid) = true := by
+    intro hh
+    have := List.all_eq_true.mp hh t ht
+    rw [hsem] at this; cases this
+  unfold allOk at h
+  rw [if_neg hall] at h
+  unfold okList at h
+  split at h
+  · cases h
+  · rename_i e hp; exact ⟨e, hp⟩
+
+
+-- non-vacuity: a comment line ended by CRLF, a transaction ended by a bare CR, a blank line ended by LF,
+-- a second transaction in the writer's own layout ended by CRLF, nothing after it
+def plainLayout : Layout := { pre := [], g := fun _ => [' '], kw := id, post := [] }
+theorem plainLayout_ok : plainLayout.ok :=
+  ⟨by decide, fun _ => ⟨by simp [plainLayout], by simp [plainLayout]; decide⟩, by decide, Or.inl (by decide)⟩
+theorem exLayout_ok : exLayout.ok := by
+  refine ⟨by decide, ?_, by decide, Or.inr ⟨[' '], "note".toList |> fun r => ' ' :: r, by decide, by decide⟩⟩
+  intro i
+  unfold exLayout
+  simp only
+  split
+  · exact ⟨by simp, by decide⟩
+  · exact ⟨by simp, by decide⟩
+def exT1 : DTx := ⟨2024, 2, 29, "ACME", .split ⟨['2'], []⟩⟩
+def exT2 : DTx := ⟨2024, 3, 1, "ACME", .sell ⟨['5'], []⟩ ⟨⟨['7'], ['5']⟩, "USD"⟩ zeroGbp⟩
+theorem exT1_ok : txOk exT1 := ⟨by decide, by decide, by decide, ⟨by decide, by decide⟩, ⟨by decide, by decide, by decide, rfl⟩⟩
+theorem exT2_ok : txOk exT2 := by
+  refine ⟨by decide, by decide, by decide, ⟨by decide, by decide⟩, ⟨⟨by decide, by decide, by decide, rfl⟩, ?_, ?_⟩⟩
+  · exact ⟨⟨by decide, by decide, by decide, rfl⟩, 'U', 'S', 'D', by decide, by unfold curOk; decide⟩
+  · exact ⟨⟨by decide, by decide, by decide, rfl⟩, 'G', 'B', 'P', by decide, by unfold curOk; decide⟩
+def exFile : List (SrcLine × Eol) :=
+  [(.comment [] " header".toList, .crlf), (.tx exLayout exT1, .cr), (.blank [' '], .lf), (.tx plainLayout exT2, .crlf)]
+example : fileText exFile (.blank []) =
+    "# header\r\n \t2024-02-29  split\tACME  ratio\t2 # note\r \n2024-03-01 SELL ACME 5 @ 7.5 USD\r\n".toList := by decide
+example : (∀ x ∈ exFile, x.1.ok) ∧ (SrcLine.blank []).ok ∧ fileTxs exFile (.blank []) = [exT1, exT2] := by
+  refine ⟨?_, (by decide : wsRun0 []), by decide⟩
+  intro x hx
+  simp only [exFile, List.mem_cons, List.not_mem_nil, or_false] at hx
+  rcases hx with rfl | rfl | rfl | rfl
+  · exact ⟨(by decide : wsRun0 []), (by decide : lineChars " header".toList)⟩
+  · exact ⟨exLayout_ok, (by decide : lineChars exLayout.post), exT1_ok⟩
+  · exact (by decide : wsRun0 [' '])
+  · exact ⟨plainLayout_ok, (by decide : lineChars plainLayout.post), exT2_ok⟩
 
 end Cgt.C13
